@@ -184,6 +184,7 @@ class DictStore:
 
     def __init__(self):
         self.d = {}
+        self.unc = set()   # keys whose last memoize reported an I/O error: their state is left open until rewritten / forgotten
 
     def live_fns(self):
         return sorted(set(k[0] for k in self.d))
@@ -193,7 +194,7 @@ def clone(v):
     return pickle.loads(pickle.dumps(v, protocol=5))
 
 
-def run_ops(W, ops, check, emit_log, model=None, ledger=None, lru=None):
+def run_ops(W, ops, check, emit_log, model=None, ledger=None, lru=None, faults=None):
     """Execute ops against W.be; returns list of (clause, features, detail) divergences.
 
     check: set of {"dict", "blob", "lru", "ro"}.
@@ -214,6 +215,8 @@ def run_ops(W, ops, check, emit_log, model=None, ledger=None, lru=None):
         viol.append((clause, f, detail))
 
     def present_check(i, op, fn, x, g, where):
+        if (fn, x) in model.unc:
+            return False
         exp = (fn, x) in model.d
         if (g is not None) != exp:
             bad("lookup-presence", op, {"i": i, "key": [fn, x], "got_present": g is not None, "expected": exp, "via": where},
@@ -267,10 +270,38 @@ def run_ops(W, ops, check, emit_log, model=None, ledger=None, lru=None):
                 val = values.make_sized(spec)
                 mem = W.memento(fn, x, val)
                 W.last_size[(fn, x)] = int(_est(val))
-                be.memoize(ko, mem, val)
+                flt = (faults or {}).get(str(i))
+                if flt is not None:
+                    simfs.set_plan({flt["k"]: flt})
+                    nfired = len(simfs.S.fired)
+                    try:
+                        be.memoize(ko, mem, val)
+                        failed = False
+                    except OSError:
+                        failed = True
+                    simfs.set_plan({})
+                    simfs.S.armed_open = None
+                    if len(simfs.S.fired) > nfired:
+                        bump("io_errors_injected")
+                    if failed:
+                        # a reported I/O error: the write did not happen as far as the caller knows.
+                        # The store must stay consistent; what the failed key answers afterwards is left open.
+                        bump("memoize_failed_with_io_error")
+                        model.unc.add((fn, x))
+                        if ledger is not None:
+                            ledger.on_forget([(fn, x)])
+                        emit_log([i, k, "io-error"])
+                        if ledger is not None:
+                            ledger.check(i, op, W, model, bad, bump)
+                        if viol:
+                            break
+                        continue
+                else:
+                    be.memoize(ko, mem, val)
                 if held is not None:
                     held.append(val)
                 if not W.read_only:
+                    model.unc.discard((fn, x))
                     old = model.d.get((fn, x), {})
                     meta = {}
                     for mk, me in (old.get("meta") or {}).items():
@@ -313,14 +344,14 @@ def run_ops(W, ops, check, emit_log, model=None, ledger=None, lru=None):
             elif k == "is":
                 _, fn, x = op
                 r = be.is_memoized(W.fns[fn].fn_reference(), W.ref(fn, x).arg_hash)
-                if bool(r) != ((fn, x) in model.d):
+                if bool(r) != ((fn, x) in model.d) and (fn, x) not in model.unc:
                     bad("is-memoized", op, {"i": i, "key": [fn, x], "got": bool(r)}, expected=str((fn, x) in model.d))
                 obs = bool(r)
             elif k == "isall":
                 keys = op[1]
                 r = be.is_all_memoized([W.fra(fn, x) for fn, x in keys])
                 exp = all((fn, x) in model.d for fn, x in keys)
-                if bool(r) != exp:
+                if bool(r) != exp and not any(tuple(kk) in model.unc for kk in keys):
                     bad("is-all-memoized", op, {"i": i, "keys": keys, "got": bool(r)}, expected=str(exp))
                 obs = bool(r)
             elif k == "forget_call":
@@ -332,6 +363,7 @@ def run_ops(W, ops, check, emit_log, model=None, ledger=None, lru=None):
                     if (fn, x) in model.d:
                         bump("forgot_live")
                     model.d.pop((fn, x), None)
+                    model.unc.discard((fn, x))
                     if ledger is not None:
                         ledger.on_forget([(fn, x)])
                 except ValueError as e:
@@ -347,6 +379,7 @@ def run_ops(W, ops, check, emit_log, model=None, ledger=None, lru=None):
                     gone = [kk for kk in model.d if kk[0] == fn]
                     for kk in gone:
                         del model.d[kk]
+                    model.unc -= set(kk for kk in model.unc if kk[0] == fn)
                     if ledger is not None:
                         ledger.on_forget(gone)
                 except ValueError:
@@ -360,6 +393,7 @@ def run_ops(W, ops, check, emit_log, model=None, ledger=None, lru=None):
                         bad("ro-forget-accepted", op, {"i": i})
                     gone = list(model.d)
                     model.d.clear()
+                    model.unc.clear()
                     if ledger is not None:
                         ledger.on_forget(gone)
                     bump("forget_everything")
@@ -404,6 +438,12 @@ def run_ops(W, ops, check, emit_log, model=None, ledger=None, lru=None):
                     got = be.read_metadata(W.ref(fn, x), mk)
                     if got is not None:
                         bad("metadata-of-forgotten-call", op, {"i": i, "key": [fn, x, mk], "got": repr(got)})
+            elif k == "list_m" and faults and (model.unc or stats.get("memoize_failed_with_io_error")):
+                # a listing over a store where a write failed half-way is outside every statement: noted, not judged
+                try:
+                    be.list_mementos(W.fns[op[1]].fn_reference(), limit=op[2])
+                except OSError:
+                    bump("note:listing_raised_after_failed_write")
             elif k == "list_m":
                 _, fn, limit = op
                 got = sorted(z.invocation_metadata.fn_reference_with_args.arg_hash
@@ -469,6 +509,12 @@ def run_ops(W, ops, check, emit_log, model=None, ledger=None, lru=None):
                 if "dict" in check or "ro" in check:
                     for fn in sorted(W.fns):
                         for x in XS:
+                            r = be.is_memoized(W.fns[fn].fn_reference(), W.ref(fn, x).arg_hash)
+                            if bool(r) != ((fn, x) in model.d) and (fn, x) not in model.unc:
+                                bad("is-memoized", ["sweep"], {"i": i, "key": [fn, x], "got": bool(r), "via": "sweep"},
+                                    expected=str((fn, x) in model.d))
+                    for fn in sorted(W.fns):
+                        for x in XS:
                             g = be.get_memento(W.ref(fn, x))
                             if present_check(i, ["sweep"], fn, x, g, "sweep") and g is not None:
                                 read_check(i, ["sweep"], fn, x, g)
@@ -513,11 +559,13 @@ def execute_case(case, check, profile, prop):
             world.install_seams(case["seed"])
             W = World(root, kn)
             log = []
-            ledger = BlobLedger() if "blob" in check and kn["backend"] != "memory" else None
+            ledger = BlobLedger(fault_mode=bool(case.get("faults"))) if "blob" in check and kn["backend"] != "memory" else None
             lru = LruLaws(kn) if "lru" in check and kn.get("cache_kib") else None
             if lru is not None or "fsreads" in check:
                 simfs.arm(W.roots())
-            v, st = run_ops(W, case["ops"], check, log.append, ledger=ledger, lru=lru)
+            if case.get("faults"):
+                simfs.arm(W.roots())
+            v, st = run_ops(W, case["ops"], check, log.append, ledger=ledger, lru=lru, faults=case.get("faults"))
             if lru is not None:
                 st.update(lru.stats)
             if ledger is not None:
@@ -548,9 +596,11 @@ HEX64 = re.compile(r"^[0-9a-f]{64}$")
 class BlobLedger:
     """Remembers, for every live memento, the value stored when it was created (C07)."""
 
-    def __init__(self):
+    def __init__(self, fault_mode=False):
         self.live = {}   # (fn, x) -> {"val", "ko", "ck": (key, version) | None}
         self.stats = {}
+        self.fault_mode = fault_mode   # after reported I/O errors orphan objects and broken links may exist; only what is
+                                       # reachable (through a link or a memento) must be intact
 
     def on_memoize(self, i, fn, x, val, mem, ko):
         ck = mem.content_key
@@ -583,6 +633,8 @@ class BlobLedger:
                     if "/.versions/" in rel and HEX64.match(name):
                         with open(p, "rb") as f:
                             h = hashlib.sha256(f.read()).hexdigest()
+                        if self.fault_mode:
+                            continue     # judged below, through the links
                         objects.setdefault(name, []).append(rel)
                         if h != name:
                             bad("content-hash-mismatch", op, {"i": i, "file": rel, "sha256": h})
@@ -591,8 +643,16 @@ class BlobLedger:
                         with open(p) as f:
                             tgt = f.read()
                         if not os.path.isfile(tgt):
+                            if self.fault_mode:
+                                continue     # a link left empty / truncated by a failed write is treated as absent by the library
                             bad("dangling-content-link", op, {"i": i, "link": rel, "target": tgt[len(data_root):]})
                             return
+                        if self.fault_mode and HEX64.match(os.path.basename(tgt)):
+                            with open(tgt, "rb") as f:
+                                h = hashlib.sha256(f.read()).hexdigest()
+                            if h != os.path.basename(tgt):
+                                bad("content-hash-mismatch", op, {"i": i, "file": tgt[len(data_root):], "sha256": h, "via": rel})
+                                return
         for name, paths in objects.items():
             if len(paths) > 1:
                 bad("duplicate-content-object", op, {"i": i, "hash": name, "copies": len(paths)})
@@ -603,7 +663,12 @@ class BlobLedger:
         plain = W.make_backend(plain=True, writable=True)
         by_bytes = {}
         for (fn, x), ent in sorted(self.live.items()):
-            g = plain.get_memento(W.ref(fn, x))
+            try:
+                g = plain.get_memento(W.ref(fn, x))
+            except Exception as e:  # noqa
+                bad("memento-unreadable", op, {"i": i, "key": [fn, x], "exc": world.describe_exc(e), "written_at": ent["i"]},
+                    override=str(bool(ent["ko"])), stage="metadata")
+                return
             if g is None:
                 bad("live-memento-missing", op, {"i": i, "key": [fn, x]})
                 return
